@@ -21,6 +21,8 @@ Not decided: branch cuts at +/-pi, gimbal lock, small-angle conditioning.
 Added after the seeding rounds (DESIGN.md 6.6-6.8):
  LOG.arm / RPY.gate / POWER arms / AXANG paths  every inequality-guarded arm agrees with the generic closed form on the inputs that reach it; pole gates capture
             only |pitch| within 1e-6 rad of 90 deg; from_axisangle with a non-unit axis.
+Added after seeding rounds 5 and 6 and refactoring round 4 (DESIGN.md 6.10-6.12):
+ LOG.sample  closed form of DCM.log on the decision path of sample rotations (36 quick / 204 thorough).
 """
 import ast
 import numpy as np
